@@ -3,7 +3,7 @@ import ast
 
 from pyvc.core import source
 from props import common, generic, tree_common as tc
-from props.C01 import GET_TOKENS
+from props.C01 import GET_TOKENS, scanner_state_is_local
 from props.C02 import splitter_obligations
 
 
@@ -61,7 +61,10 @@ def whitespace_agreement(rep):
 def run(rep):
     return generic.run_generic(
         rep, [(GET_TOKENS, 'text is str'), (tc.GT, 'new group'), (tc.GT, 'extend flag')],
-        structural=[splitter_obligations, same_pipeline, whitespace_agreement, tc.grouping_frame, tc.flatten_and_str],
+        structural=[splitter_obligations, same_pipeline, whitespace_agreement, tc.grouping_frame, tc.flatten_and_str,
+                    # "agrees with parse()" and "splitting a piece again" compare separate runs over the same text: the
+                    # lexer must not remember anything between (or during) runs
+                    lambda r: scanner_state_is_local(r, 'C04')],
         assumptions=['str.strip() removes exactly a maximal whitespace prefix and suffix',
                      're-splitting a returned piece gives that piece: bounded stand-in only (lexing a piece out of context '
                      'is regex semantics)',
